@@ -1,7 +1,8 @@
 #!/usr/bin/env python3
 """Run every seeded break and every self-made mutant against the check of its property (quick budget) and record
-which are flagged.  usage: tools/regress.py [seeded|mutants|all]  -> writes seeded/results.json"""
-import sys, os, json, glob, subprocess, re, time
+which are flagged.  usage: tools/regress.py [seeded|mutants|all] [streams]  -> writes seeded/results.json
+(streams > 1 runs that many patches at a time, each check with 16/streams workers)"""
+import sys, os, json, glob, subprocess, re, time, threading
 VERIF = os.path.dirname(os.path.dirname(os.path.abspath(__file__)))
 what = sys.argv[1] if len(sys.argv) > 1 else "all"
 jobs = []
@@ -15,17 +16,37 @@ if what in ("mutants", "all"):
         if pid:
             jobs.append((n, f, pid))
 out = {}
-for name, patch, pid in jobs:
+resf = os.path.join(VERIF, "seeded", "results.json")
+if os.environ.get("RESUME") and os.path.exists(resf):
+    out = json.load(open(resf))
+    jobs = [j for j in jobs if j[0] not in out]
+streams = int(sys.argv[2]) if len(sys.argv) > 2 else 1
+lock = threading.Lock()
+todo = list(jobs)
+def one(name, patch, pid):
     t0 = time.time()
     extra = ["--runs", "16"] if pid == "C01" else []
     if name == "c20_alt_only_ishigh":
         extra = ["--tier", "thorough", "--runs", "400"]
-    env = dict(os.environ, VERIF_RUN_TIMEOUT="30")
+    if streams > 1:
+        extra += ["--jobs", str(max(2, 16 // streams))]
+    env = dict(os.environ, VERIF_RUN_TIMEOUT="60")
     p = subprocess.run([os.path.join(VERIF, "tools", "mutest.sh"), patch, pid] + extra, stdout=subprocess.PIPE, stderr=subprocess.STDOUT, text=True, env=env)
     classes = re.findall(r"class=(\S+) site=(.*)", p.stdout)
     m = re.search(r"rc=(\d+)", p.stdout)
     rc = int(m.group(1)) if m else -1
-    out[name] = {"check": pid, "rc": rc, "flagged": rc == 1, "classes": [c[0] + " @ " + c[1][:80] for c in classes][:3], "wall_s": round(time.time() - t0, 1)}
-    print(name, pid, "rc=%d" % rc, out[name]["classes"][:1], flush=True)
-    json.dump(out, open(os.path.join(VERIF, "seeded", "results.json"), "w"), indent=1, sort_keys=True)
+    with lock:
+        out[name] = {"check": pid, "rc": rc, "flagged": rc == 1, "classes": [c[0] + " @ " + c[1][:80] for c in classes][:3], "wall_s": round(time.time() - t0, 1)}
+        print(name, pid, "rc=%d" % rc, out[name]["classes"][:1], flush=True)
+        json.dump(out, open(os.path.join(VERIF, "seeded", "results.json"), "w"), indent=1, sort_keys=True)
+def worker():
+    while True:
+        with lock:
+            if not todo:
+                return
+            j = todo.pop(0)
+        one(*j)
+ts = [threading.Thread(target=worker) for _ in range(streams)]
+for t in ts: t.start()
+for t in ts: t.join()
 print("flagged %d of %d" % (sum(1 for v in out.values() if v["flagged"]), len(out)))
